@@ -231,4 +231,60 @@ theorem uaRest_destroys_waiters (fuel : Nat) {C W : List Nat} {s : State} (h : I
     have hq := ((qAll (fuel + 2)).sn [] _ src h1.n).tid
     exact q (x, n) (List.mem_reverse.2 hmem) (by rw [hq]; exact hlt)
 
+/-! ### `waitthread`: the callee's destruction releases the caller -/
+
+/-- after `~ScriptThread` of a thread that had its VM, its weak references read null -/
+theorem deleteThread_not_alive (fuel : Nat) (s : State) (t : Nat) (th : Th) (hth : thFind s.threads t = some th)
+    (hv : th.hasVM = true) (hn : (s.threads.map (·.1)).Nodup → ((deleteThread (fuel + 1) s t).threads.map (·.1)).Nodup) :
+    (thFind (deleteThread (fuel + 1) s t).threads t = none) ∨
+      ∃ th', thFind (deleteThread (fuel + 1) s t).threads t = some th' ∧ th'.dead = true := by
+  rw [deleteThread_succ]
+  have : s.th? t = some th := by rw [State.th?_eq]; exact hth
+  rw [this]
+  simp only [hv, Bool.not_true, Bool.false_eq_true, if_false]
+  exact finishDelete_gone _ t
+
+/-- **the callee's destruction releases the `waitthread` caller, inside that call**: `delete thread` of `t` (which had
+    its VM) called in a state satisfying the machine invariant returns — unless out of fuel — with `t` without VM,
+    nothing registered on `t` any more, and every thread that was registered *only* on channel 0 of `t` (a `waitthread`
+    caller) no longer `waiting`: it was re-timed by `Unregister(0)` in `t`'s destructor (or destroyed). -/
+theorem deleteThread_releases_callers (fuel : Nat) {C : List Nat} {s : State} {t : Nat} {th : Th}
+    (h : Inv C [t] none s) (hth : thFind s.threads t = some th) (hv : th.hasVM = true) :
+    Ok (deleteThread (fuel + 1) s t)
+      (NoVM (deleteThread (fuel + 1) s t) t ∧
+       (∀ n, Tbl.getD (deleteThread (fuel + 1) s t).notify (t, n) = []) ∧
+       (∀ c, (∀ n o, o ∈ Tbl.getD s.waitFor (c, n) → n = 0 ∧ o = t) →
+          ∀ th', thFind (deleteThread (fuel + 1) s t).threads c = some th' → th'.ts ≠ .waiting)) := by
+  have q := (qAll (fuel + 1)).dt [] s t h.n
+  refine ((iAll (fuel + 1)).dt C [] s t h).map (fun i' => ?_)
+  have ht100 : 100 ≤ t := (h.n.range t th hth).1
+  have hnv := deleteThread_noVM fuel h.n t
+  -- `t` is dead or gone: its weak references read null
+  have hal : (deleteThread (fuel + 1) s t).alive t = false := by
+    rw [State.alive_thread _ (by simpa [State.isThread] using ht100)]
+    rcases deleteThread_not_alive fuel s t th hth hv (fun _ => i'.n.nodup) with hg | ⟨th', hg, hd⟩
+    · exact aliveTh_false_of_none hg
+    · cases ha : aliveTh (deleteThread (fuel + 1) s t).threads t with
+      | false => rfl
+      | true =>
+        obtain ⟨th2, h2, hd2⟩ := (aliveTh_iff i'.n.nodup t).1 ha
+        rw [hg] at h2; cases h2
+        rw [hd] at hd2; cases hd2
+  have hempty : ∀ n, Tbl.getD (deleteThread (fuel + 1) s t).notify (t, n) = [] := by
+    intro n
+    apply List.eq_nil_iff_forall_not_mem.2
+    intro x hx
+    have := (i'.tab.aN t n x hx).1
+    rw [hal] at this; cases this
+  refine ⟨hnv, hempty, ?_⟩
+  intro c honly th' hf hw
+  rcases i'.lnk.linkW c th' hf hw with m | ho
+  · cases m
+  · obtain ⟨n, hne⟩ := (i'.n.wfW.hasOwner_iff c).1 ho
+    obtain ⟨o, hmem⟩ := List.exists_mem_of_ne_nil _ hne
+    obtain ⟨hn0, hot⟩ := honly n o (q.subW (c, n) o hmem)
+    subst hn0; subst hot
+    have hx : c ∈ Tbl.getD (deleteThread (fuel + 1) s o).notify (o, 0) := (i'.tab.mir.mem_iff o 0 c).2 hmem
+    rw [hempty 0] at hx; cases hx
+
 end Morfuse.Sched
